@@ -28,6 +28,7 @@ fn text_of(c: &J, kind: &str, nc: i64) -> String {
                 4 => format!("{}\t-{}\t{}\t{}\n", n, st + 1, en, v), // negative start
                 5 => format!("{}\t{}x\t{}\t{}\n", n, st, en, v),    // digits followed by junk
                 6 => format!("{}\t{}.0\t{}\t{}\n", n, st, en, v),   // a float where an integer belongs
+                7 => format!("{}\t{}\u{E000}\t{}\t{}\n", n, st, en, v), // a byte that is not text (the placeholder becomes 0xE9: invalid UTF-8)
                 _ => format!("{}\t{}\tx{}\t{}\n", n, st, en, v),    // non-numeric end column
             };
             s.push_str(&line);
@@ -42,11 +43,11 @@ fn text_of(c: &J, kind: &str, nc: i64) -> String {
 
 /// offsets of the first line of every run of equal chromosome names (linear scan; the harness
 /// does not depend on bigtools' own indexer here)
-fn run_offsets(text: &str) -> Vec<(u64, String)> {
+fn run_offsets(text: &[u8]) -> Vec<(u64, String)> {
     let mut out: Vec<(u64, String)> = vec![];
     let mut off = 0u64;
-    for line in text.split_inclusive('\n') {
-        let chrom = line.split('\t').next().unwrap_or("").to_string();
+    for line in text.split_inclusive(|b| *b == b'\n') {
+        let chrom = String::from_utf8_lossy(line.split(|b| *b == b'\t').next().unwrap_or(b"")).to_string();
         if out.last().map(|l| l.1 != chrom).unwrap_or(true) {
             out.push((off, chrom));
         }
@@ -76,7 +77,16 @@ pub fn run_case(c: &J) -> J {
     let sink = SharedSink::default();
     let _ctx: Option<Ctx> = None;
     let has_malformed = c["items"].as_array().unwrap().iter().any(|it| it[4].as_i64().unwrap() == 1);
-    let text = text_of(c, &kind, nc);
+    let text: Vec<u8> = {
+        // the placeholder of malformed shape 7 becomes one byte that is not valid UTF-8
+        let t = text_of(c, &kind, nc).into_bytes();
+        let mut out = Vec::with_capacity(t.len());
+        let mut i = 0;
+        while i < t.len() {
+            if t[i..].starts_with(&[0xEE, 0x80, 0x80]) { out.push(0xE9); i += 3; } else { out.push(t[i]); i += 1; }
+        }
+        out
+    };
     let res: Result<(), String> = if kind == "bw" {
         let mut w = BigWigWrite::new(sink.clone(), sizes);
         w.options = opts;
@@ -89,12 +99,12 @@ pub fn run_case(c: &J) -> J {
             }
             "file" => {
                 let t = text.clone();
-                if pass == 2 { w.write_multipass(|| Ok(BedParserStreamingIterator::from_bedgraph_file(std::io::Cursor::new(t.clone().into_bytes()), allow)), rt).map_err(|e| e.to_string()) }
-                else { w.write(BedParserStreamingIterator::from_bedgraph_file(std::io::Cursor::new(t.into_bytes()), allow), rt).map_err(|e| e.to_string()) }
+                if pass == 2 { w.write_multipass(|| Ok(BedParserStreamingIterator::from_bedgraph_file(std::io::Cursor::new(t.clone()), allow)), rt).map_err(|e| e.to_string()) }
+                else { w.write(BedParserStreamingIterator::from_bedgraph_file(std::io::Cursor::new(t), allow), rt).map_err(|e| e.to_string()) }
             }
             _ => {
                 let mut f = tempfile::NamedTempFile::new().unwrap();
-                f.write_all(text.as_bytes()).unwrap();
+                f.write_all(&text).unwrap();
                 f.flush().unwrap();
                 let path = f.path().to_path_buf();
                 let idx = run_offsets(&text);
@@ -114,12 +124,12 @@ pub fn run_case(c: &J) -> J {
             }
             "file" => {
                 let t = text.clone();
-                if pass == 2 { w.write_multipass(|| Ok(BedParserStreamingIterator::from_bed_file(std::io::Cursor::new(t.clone().into_bytes()), allow)), rt).map_err(|e| e.to_string()) }
-                else { w.write(BedParserStreamingIterator::from_bed_file(std::io::Cursor::new(t.into_bytes()), allow), rt).map_err(|e| e.to_string()) }
+                if pass == 2 { w.write_multipass(|| Ok(BedParserStreamingIterator::from_bed_file(std::io::Cursor::new(t.clone()), allow)), rt).map_err(|e| e.to_string()) }
+                else { w.write(BedParserStreamingIterator::from_bed_file(std::io::Cursor::new(t), allow), rt).map_err(|e| e.to_string()) }
             }
             _ => {
                 let mut f = tempfile::NamedTempFile::new().unwrap();
-                f.write_all(text.as_bytes()).unwrap();
+                f.write_all(&text).unwrap();
                 f.flush().unwrap();
                 let path = f.path().to_path_buf();
                 let idx = run_offsets(&text);
